@@ -509,12 +509,32 @@ def has_ifexp(program):
                for t in texts)
 
 
+def has_lambda_cell_shape(src):
+    """A lambda INSIDE the query (coll.select/filter/exists(lambda p: ...)) whose parameter is captured by a nested generator
+    and whose body also reads outer variables: the decompiler rotates the variable names (property C03, finding
+    C03-LAMBDA-CELL-PARAM-WITH-FREEVARS), so such programs are run in string form only."""
+    if 'lambda' not in src: return False
+    for n in ast.walk(ast.parse('(' + src + ')')):
+        if not isinstance(n, ast.Lambda): continue
+        own = {a.arg for a in n.args.args}
+        captured = any(isinstance(g, (ast.GeneratorExp, ast.Lambda)) and g is not n and
+                       any(isinstance(x, ast.Name) and x.id in own for x in ast.walk(g)) for g in ast.walk(n.body))
+        bound = set(own)
+        for g in ast.walk(n.body):
+            if isinstance(g, ast.comprehension): bound |= {x.id for x in ast.walk(g.target) if isinstance(x, ast.Name)}
+            if isinstance(g, ast.Lambda): bound |= {a.arg for a in g.args.args}
+        free = any(isinstance(x, ast.Name) and x.id not in bound and x.id not in Interp._FUNCS and not x.id[:1].isupper()
+                   for x in ast.walk(n.body))
+        if captured and free: return True
+    return False
+
+
 def forms_of(program, skip_gen_ifexp=True):
     """Every front-end form the program can be written in.  Conditional expressions are emitted in string form only:
     on this interpreter the decompiler (property C03, shape K1) silently returns a different tree for them in
     generator form, and also in lambda form when they sit next to and/or or inside a nested generator."""
     out = [program.clone(form='str')]
-    decompilable = not (skip_gen_ifexp and has_ifexp(program))
+    decompilable = not (skip_gen_ifexp and (has_ifexp(program) or has_lambda_cell_shape(program.src)))
     if decompilable: out.insert(0, program.clone(form='gen'))
     if program.lam is not None and decompilable:
         # a lambda whose parameter is captured by a nested generator/lambda AND that reads closure variables decompiles
